@@ -293,10 +293,10 @@ func peerActor(t *core.Tape) map[string]any {
 	a := map[string]any{
 		"id": id, "type": []string{"Person", "Service", "Group", "Application"}[t.Draw(4)],
 		"inbox": id + "/inbox", "outbox": id + "/outbox", "followers": id + "/followers", "following": id + "/following",
-		"preferredUsername": "user" + fmt.Sprint(t.Draw(100)),
-		"name":              peerText(t),
-		"summary":           "<p>" + peerText(t) + "</p>",
-		"url":               "https://peer.example/@user",
+		"preferredUsername":         "user" + fmt.Sprint(t.Draw(100)),
+		"name":                      peerText(t),
+		"summary":                   "<p>" + peerText(t) + "</p>",
+		"url":                       "https://peer.example/@user",
 		"manuallyApprovesFollowers": false,
 		"discoverable":              true,
 		"publicKey": map[string]any{"id": id + "#main-key", "owner": id,
